@@ -505,6 +505,8 @@ func runC14(w *World, r *Report) {
 		}
 	}
 
+	shareRule(w, r, "C14.positions-do-not-share-room", "per-position lists of the array concat do not share spare capacity: re-chunking (a position receiving two fragments in one call instead of one per call) must not leak a fragment into the neighbouring position", 0, "C17", "C17.positions-do-not-share-room")
+
 	// ---- parts-independent
 	r.Rule("C14.parts-independent", "ConcatMessages collects each part of a chunk under a test of that part only (shared with C18.chunk-parts-independent): 'text or tool calls' makes the result depend on how the provider happened to cut the chunks", 1)
 	{
